@@ -317,6 +317,13 @@ I5_SCRIPTS = {
     "float-assigned-int-in-for-that-does-not-run": "duty = 1.5\nfor i in range(0):\n    duty = 3\nout = duty\nmon.write(out)\n",
     "max-min-three-operands-float-last": "a = 1\nb = 2\nx = 2.45\nm = max(a, b, x)\nn = min(a + 3, b + 4, x)\nmon.write(m)\nmon.write(n)\ndef top(p, q, r):\n    return max(p, q, r)\nt = top(1, 2, 12.5)\nmon.write(t)\n",
     "int-then-float-reassign": "x = 1\nx = 2.5\nmon.write(x)\n",
+    "comprehension-target-reuses-a-float-name": "k = 0.5\nxs = [k * 2 for k in range(4)]\ny = k + 1\nz = y * 3\nmon.write(xs[3])\nmon.write(k)\nmon.write(y)\nmon.write(z)\n",
+    "comprehension-target-reuses-a-float-parameter": "def spread(k):\n    steps = [k * 10 for k in range(3)]\n    return k + steps[2]\nw = spread(0.25)\nmon.write(w)\n",
+    "comprehension-target-reuses-a-string-name": "k = 'ab'\nxs = [k + 1 for k in range(3)]\nt = k + 'c'\nmon.write(xs[2])\nmon.write(t)\n",
+    "helper-called-with-int-and-float-signatures": "def scale(v, k):\n    r = v * k\n    return r\ndef boost(x):\n    return scale(x, 3) + 1\ngain = 1.5\na = scale(3, 2)\nb = scale(gain, 2)\nc = scale(gain, gain)\n"
+                                                   "d = boost(4)\ne = boost(gain)\nmon.write(a)\nmon.write(b)\nmon.write(c)\nmon.write(d)\nmon.write(e)\n",
+    "helper-float-signature-first-then-int": "def twice(v):\n    return v * 2\ng = 0.75\nf = twice(g)\ni = twice(4)\nmon.write(f)\nmon.write(i)\n",
+    "helper-signatures-differ-in-second-parameter-only": "def mix(a, b):\n    return a + b\nh = 0.5\np = mix(1, 2)\nq = mix(1, h)\nmon.write(p)\nmon.write(q)\n",
 }
 
 
@@ -353,10 +360,24 @@ def narrowing_sites(cpp):
             if not name.startswith("__") and (narrowing(n["inner"][1]) or (k == "CompoundAssignOperator" and "float" in str(n.get("computeResultType", {}).get("qualType", ""))
                                                                           and "int" in str(n.get("type", {}).get("qualType", "")))):
                 sites.append(f"{fn}: assignment `{name} {n.get('opcode')} <float expression>` into a {n.get('type', {}).get('qualType')}")
+        if k == "CallExpr" and n.get("inner"):
+            callee = strip(n["inner"][0])
+            while callee and callee.get("kind") == "ImplicitCastExpr":
+                callee = strip((callee.get("inner") or [None])[0])
+            cname = ((callee or {}).get("referencedDecl") or {}).get("name", "")
+            if cname in user_functions:
+                for i, a in enumerate(n["inner"][1:]):
+                    if narrowing(a):
+                        sites.append(f"{fn}: call `{cname}(...)`: a float expression is passed for integer parameter #{i + 1}")
         if k == "ReturnStmt" and n.get("inner") and narrowing(n["inner"][0]):
             sites.append(f"{fn}: return of a float expression from a function returning an integer type")
         for ch in n.get("inner", []) or []:
             walk(ch, fn)
+    st = {}
+    user_functions = set()
+    for n in tu.get("inner", []):
+        if in_main(n, st) and n.get("kind") == "FunctionDecl" and not n.get("name", "").startswith("__redu") and n.get("name") not in ("setup", "loop"):
+            user_functions.add(n.get("name"))
     st = {}
     for n in tu.get("inner", []):
         if not in_main(n, st):
